@@ -16,6 +16,7 @@ from simlib.net import Refuse
 import wpull.network.pool as wpool
 import wpull.protocol.abstract.client as wabs
 from wpull.network.pool import ConnectionPool
+from wpull.proxy.client import HTTPProxyConnectionPool
 from wpull.network.dns import Resolver
 from wpull.errors import NetworkError
 from wpull.protocol.http.client import Client as HTTPClient
@@ -26,7 +27,7 @@ simset.inject(wpool, wabs)
 P = 'C12'
 BUDGETS = {'C12': (40, 900, 200)}
 LEVELS = {'C12': 'exploration'}
-PROBES = {'C12': ['cancel_just_notified', 'waiter_blocked', 'cancel_while_waiting', 'cancel_while_holding', 'cancel_while_connecting',
+PROBES = {'C12': ['proxy_pool', 'cancel_just_notified', 'waiter_blocked', 'cancel_while_waiting', 'cancel_while_holding', 'cancel_while_connecting',
                   'connect_failed', 'remote_closed_idle', 'force_clean', 'reused_connection']}
 INFO = {'C12': {
     'rule': 'workload = (clients N in 2..6, hosts H in 1..3, per-host limit M in 1..3, per-client rounds with '
@@ -62,6 +63,8 @@ class EchoPeer:
             elif b'\r\n\r\n' in self.buf:
                 req, self.buf = self.buf.split(b'\r\n\r\n', 1)
                 tag = req.split(b' ')[1]
+                if tag.startswith(b'http://'):
+                    tag = b'/' + tag.split(b'/', 3)[3]        # absolute form (request through a proxy)
                 body = b'body-of-' + tag
                 conn.send(b'HTTP/1.1 200 OK\r\nContent-Length: %d\r\n\r\n' % len(body) + body)
             else:
@@ -87,12 +90,13 @@ def run(tape, prop, tier):
     cancel_on = faults_on and tape.chance(2, 3, 'cancel_on')
     connfail_on = faults_on and tape.chance(1, 2, 'connfail_on')
     idleclose_on = faults_on and tape.chance(1, 2, 'idleclose_on')
+    use_proxy = tape.chance(1, 6, 'use_proxy')
     hosts = ['h%d.test' % i for i in range(Hn)]
     h = H()
     h.server_conns = []
     simset.set_tape(tape)
     env = SimEnv(tape, max_callbacks=120_000, max_vtime=5000.0)
-    workload = {'N': N, 'H': Hn, 'M': M, 'max_count': max_count, 'faults': faults_on, 'clients': []}
+    workload = {'N': N, 'H': Hn, 'M': M, 'max_count': max_count, 'faults': faults_on, 'proxy': use_proxy, 'clients': []}
     try:
         with env:
             loop, net = env.loop, env.net
@@ -110,7 +114,13 @@ def run(tape, prop, tier):
             net.connect_faults = connect_faults
             resolver = Resolver()
             resolver.dns_python_enabled = False
-            pool = ConnectionPool(max_host_count=M, resolver=resolver, max_count=max_count)
+            if use_proxy:
+                # all traffic through an HTTP proxy: per-origin host keys on connections to the proxy address
+                net.add_host('proxy.test', '10.0.0.99')
+                net.listen('10.0.0.99', 3128, lambda conn: EchoPeer(h, conn))
+                pool = HTTPProxyConnectionPool(('proxy.test', 3128), max_host_count=M, resolver=resolver, max_count=max_count)
+            else:
+                pool = ConnectionPool(max_host_count=M, resolver=resolver, max_count=max_count)
             http = HTTPClient(connection_pool=pool)
 
             holders = {}          # id(conn) -> client index
@@ -248,7 +258,9 @@ def run(tape, prop, tier):
                 finally:
                     finished.append(ci)
 
-            styles = ('raw', 'nowait', 'close', 'ctx', 'http')
+            styles = ('raw', 'nowait', 'close', 'ctx', 'http') if not use_proxy else ('http', 'http')
+            if use_proxy:
+                r.probes['proxy_pool'] += 1
             holds = (0.0, 0.01, 0.1, 1.0, 0.5)
             tasks = []
             for ci in range(N):
